@@ -26,7 +26,7 @@ def json_defaults(t):
     if b == "int":
         d += [("int", 5), ("zero", 0), ("negint", -5)]
     if b == "float":
-        d += [("float", 0.5), ("intfloat", 2.0)]
+        d += [("float", 0.5), ("intfloat", 2.0), ("int_under_float", 2), ("zero_under_float", 0), ("tinyfloat", 1e-07)]
     if b == "str":
         d += [("str", "a"), ("emptystr", "")]
     if t.startswith("Literal["):
